@@ -19,7 +19,7 @@ CLAIMED = {
             "specification's definition layer in TLC and replayed on the real interpreter in a fresh environment.",
             "Trusts TLC, the Go runtime, the harness's JSON bridge and structural comparison; Def.tla is written from "
             "the mal guide/README, validated against the step files; programs beyond the bound are only sampled.",
-            "§8 C01"),
+            "§7 C01 (and §2, §3)"),
     "C13": ("TLA+ definition of every collection builtin (Coll.tla) as a total operator; TLC enumerates builtin x "
             "argument tuples; each is replayed as (f 'a1 ..) through lisp.EVAL and compared with the allowed outcome",
             "Exhaustive small-scope conformance of 49 builtins against the abstract sequence/map/set model: every "
@@ -29,14 +29,14 @@ CLAIMED = {
             "code are validated by TraceDef.tla; the oracle itself is validated against tests/step*.mal (StepFiles.tla).",
             "Trusts TLC and the harness bridge; Coll.tla transcribes the documented behaviour (validated against the "
             "step files); argument values beyond the pool are not explored.",
-            "§8 C13"),
+            "§7 C13 (and §2, §3)"),
     "C14": ("TLA+ structural equality (Values.StructEq) decides every ordered pair of a pool of values built along "
             "different construction paths, TLC checks StructEq is an equivalence on the pool, the real (= a b) is "
             "replayed for every pair, and the OBSERVED matrix is validated by TLC (TraceEq.tla) as an equivalence",
             "Exhaustive over 72x72 ordered pairs incl. nil-valued maps, key-presence differences, kind confusions; "
             "plus trace validation of the observed relation (reflexive/symmetric/transitive over all triples).",
             "Trusts TLC, the harness bridge; pool-bounded.",
-            "§8 C14"),
+            "§7 C14 (and §2, §3)"),
     "C03": ("Def.tla defines try/catch/finally/throw exactly as the property states; TLC enumerates every program up to "
             "a size bound over a try/catch/finally grammar (throws from body, callee, macro, Go error return, Go panic, "
             "handler; thrown objects of every kind) and each is replayed through lisp.EVAL; random larger try programs are "
@@ -46,7 +46,7 @@ CLAIMED = {
             "errors.Is for Go errors), effect order of body/handler/finally, catch variable not visible outside.",
             "Trusts TLC, harness bridge; finally bodies that throw are modelled as 'outcome discarded' (as the "
             "statement says the result is unchanged).",
-            "§8 C03"),
+            "§7 C03 (and §2, §3)"),
     "C12": ("Def.tla defines quasiquote as template substitution and macro calls by expansion in the caller's scope; TLC "
             "enumerates every template / macro-call program up to a size bound; replayed through lisp.EVAL (which "
             "implements the cons/concat/vec rewrite) and compared, including macroexpand and eval-of-macroexpand routes; "
@@ -55,7 +55,7 @@ CLAIMED = {
             "~200k + ~70k): value, effect order, expansion (generated symbols up to renaming).",
             "Trusts TLC, harness bridge; position of the failure of a non-sequence splice relative to later effects is "
             "abstained on.",
-            "§8 C12"),
+            "§7 C12 (and §2, §3)"),
     "C02": ("Implementation-shaped TLA+ model of Go slices (GenC02.tla: heap of backing arrays, headers, in-place "
             "append when len<cap, which builtin copies/aliases/appends) explored by TLC over all operation histories; "
             "each history (model-dangerous ones flagged) replayed on the real code for every seed construction path, "
@@ -65,7 +65,7 @@ CLAIMED = {
             "seed construction paths x {text, AST} routes.",
             "Real slice capacities are decided by the Go runtime; the harness realises spare capacity through the "
             "seed paths and reports the (len,cap) pairs seen.",
-            "§8 C02"),
+            "§7 C02 (and §2, §3)"),
     "C05": ("Text.tla (character-level scanner/reader/printer definition) classifies EVERY string up to a length bound "
             "over five 14-character alphabets; TLC enumerates them (and asserts the model's own totality/round trip); "
             "each text is fed to every read entry point of the real code under recover and a watchdog; a random "
@@ -75,7 +75,7 @@ CLAIMED = {
             "placeholder map, read-string) followed by PRINT.",
             "Arbitrary byte strings beyond the alphabets (invalid UTF-8, NUL) are covered by the random driver only; "
             "trusts recover/watchdog.",
-            "§8 C05"),
+            "§7 C05 (and §2, §3)"),
     "C06": ("Text.tla defines printer and reader; TLC enumerates data values whose strings range over every string up to "
             "a length bound over the 12 characters the printer/reader treat specially (asserting the model's own round "
             "trip for each), and every accepted text of the C05/C16 enumerations; the real PRINT/READ and "
@@ -84,7 +84,7 @@ CLAIMED = {
             "Exhaustive small-scope round-trip conformance in both directions (values -> text -> values; text -> value "
             "-> text -> value): 9.5k/113k values, 160k/400k texts.",
             "Strings outside the alphabet only via the random driver; float literals excluded by the property.",
-            "§8 C06"),
+            "§7 C06 (and §2, §3)"),
     "C16": ("Text.tla's reader classifies every token sequence up to a length bound as complete / completable with "
             "closer c / malformed; TLC enumerates them; the real READ and the REPL's own multiLine classifier (verif "
             "export) must agree on every one; Repl.tla models the interactive loop as a state machine over typed lines "
@@ -93,7 +93,7 @@ CLAIMED = {
             "(every bracket kind, reader macros, strings/raw strings containing brackets, comments) + all character "
             "strings of length <= 4 over the bracket alphabets (118k / 1.2M judged texts).",
             "Input ending after a reader macro is not classified by the property (abstained).",
-            "§8 C16"),
+            "§7 C16 (and §2, §3)"),
     "C04": ("TLC enumerates the AST space (every special-form head x operand tuples over malformed-operand kinds, nesting "
             "templates, every function bound in the environment x argument tuples) and Def.tla classifies each AST; "
             "each is evaluated by the real EVAL bare and inside (try AST (catch e :caught)) under recover/watchdog, a "
@@ -101,7 +101,7 @@ CLAIMED = {
             "Exhaustive small-scope totality check: 73k ASTs quick (arity <= 2, 138 environment functions), ~1.2M thorough "
             "(arity <= 3). Violation only on an observed panic / hang / process death / error escaping try.",
             "Whether a malformed form is an error or a value is not judged; recursion depth bounded; trusts recover.",
-            "§8 C04"),
+            "§7 C04 (and §2, §3)"),
     "C15": ("Text.ReadWith defines token-level placeholder substitution; GenC15.tla carries an implementation-shaped model "
             "of the line-oriented preamble (AddPreamble / READWithPreamble as mal.go does them) and TLC evaluates both "
             "on every (source template, assignment) case, flagging the cases the design loses; the real "
@@ -109,7 +109,7 @@ CLAIMED = {
             "Exhaustive over 24 source templates x 5 names x 30 values (3.6k cases; thorough adds all two-name "
             "assignments, 432k). The set of failing real cases coincided with the model-flagged set when first run.",
             "Value pool bounded; names over letters/digits/-/_ sampled by 5 representatives.",
-            "§8 C15"),
+            "§7 C15 (and §2, §3)"),
     "C19": ("Text.tla renders every program with 12 layouts and TLC asserts on the model that each rendering reads back to "
             "the same forms (layout insensitivity); Def.tla gives the program's meaning; the real code then runs the program "
             "through 7 delivery routes, each compared with Def and all compared with each other; REPL sessions of Repl.tla "
@@ -118,7 +118,7 @@ CLAIMED = {
             "x 7 routes (8.5k / 120k route executions).",
             "Routes built by the harness (file written to a temp dir for load-file); REPL route compares the printed value "
             "re-read when it is data.",
-            "§8 C19"),
+            "§7 C19 (and §2, §3)"),
     "C17": ("GenC17.tla is a position model: it renders program texts from blocks, wrappers and faults and computes by line "
             "arithmetic the rows of the top-level form containing the fault and the fault's own row (asserting on the model "
             "that every rendering tokenizes); TLC enumerates them; the real error position is compared",
@@ -126,7 +126,7 @@ CLAIMED = {
             "x following form (2.6k / 97k texts), each evaluated form-by-form and as one do.",
             "Errors without a position are not judged (the property is conditional); load-file's own row offset is outside "
             "the property.",
-            "§8 C17"),
+            "§7 C17 (and §2, §3)"),
     "C20": ("GenC20.tla states the binder's contract as a function (invoke iff count within declared/derived bounds and every "
             "argument assignable; result conventions; panic wrapping; names); TLC enumerates shapes x bounds x argument lists x "
             "behaviours x entry points x import paths; 144 generated Go functions (in a dotted and a dot-less module) record "
@@ -134,7 +134,7 @@ CLAIMED = {
             "Exhaustive over the shape/bounds/argument space described (45k cases quick, 190k thorough).",
             "Parameter typings limited to int / MalType / error-interface; registration with illegal declarations (bounds on a "
             "non-variadic function) is not exercised (the binder panics by design at registration).",
-            "§8 C20"),
+            "§7 C20 (and §2, §3)"),
     "C08": ("The definition layer carries the tail-call discipline (Def.tla st.depth: tail positions keep the depth, every "
             "other sub-evaluation is one level deeper); TLC enumerates every loop shape (nests of tail constructs, with and "
             "without one non-tail construct, over 1..3 mutually recursive functions), asserts on the model that tail shapes "
@@ -145,7 +145,7 @@ CLAIMED = {
             "60/400 long runs (10^3..3*10^5 iterations).",
             "Absolute depths are not compared (only signs of differences): a refactor adding a constant number of frames is "
             "not an alarm; trusts runtime.Callers.",
-            "§8 C08"),
+            "§7 C08 (and §2, §3)"),
     "C18": ("Def.tla gives each program's outcome and the SET of (form, visible bindings) pairs its evaluation visits "
             "(quasiquote through the rewrite as coded, QQRewrite); TLC enumerates programs of three grammars; the real code "
             "runs each program without a stepper and under every cyclic command script up to a length bound (separate "
@@ -156,7 +156,7 @@ CLAIMED = {
             "AST and as text under a module name; 16k (quick) / 62k recorded consultation traces validated.",
             "Scripts are cyclic sequences (the callback's answer depends only on how many times it was called); the "
             "interactive debugger engine (keyboard) is not driven.",
-            "§8 C18"),
+            "§7 C18 (and §2, §3)"),
     "C09": ("AtomImpl.tla models the atom as Go's RWMutex (pending writers block new readers) + cell + version and every "
             "operation as its sequence of critical sections; TLC checks no-lost-update, failed-swap-keeps-cell, deadlock "
             "freedom and termination exhaustively on 5 scenarios (and shows the deadlocks of the previous lock-held "
@@ -170,7 +170,7 @@ CLAIMED = {
             "Real schedules are sampled (Gosched injected at the hooks), not enumerated; the race detector and "
             "runtime.Stack wait reasons are trusted; update functions that update the atom being swapped are excluded "
             "as in the property.",
-            "§8 C09"),
+            "§7 C09 (and §2, §3)"),
     "C10": ("FutureImpl.tla models the body goroutine, the two 1-slot channels, the flags and cancel's check-and-mark as "
             "separate steps; TLC checks P1..P7 exhaustively for 4 body kinds x with/without canceller x caller-context expiry "
             "(and exhibits the P4/P5 counterexample of the pre-repair design); that counterexample schedule is replayed "
@@ -180,7 +180,7 @@ CLAIMED = {
             "Exhaustive model checking (2 derefers + canceller + body); deterministic replay of the model's window for each "
             "body kind; 154 (quick) / 3k (thorough) recorded real schedules validated; binding self-test.",
             "Real schedules sampled; ordering of overlapping operations not judged; race detector trusted.",
-            "§8 C10"),
+            "§7 C10 (and §2, §3)"),
     "C11": ("EnvLock.tla models the scope tree with one RWMutex per scope and lookups that climb holding their read locks; TLC "
             "checks deadlock freedom and reads-see-latest-set (and exhibits the deadlock of a shared-mutex variant); Def.tla "
             "gives every program's solo outcome; the real code runs every set of programs simultaneously on one environment "
@@ -191,7 +191,7 @@ CLAIMED = {
             "pool; 46 / 300 recorded scope logs validated (42k+ events); binding self-test.",
             "Schedules are whatever the Go scheduler produces under load (not enumerated); programs with futures are not in "
             "the pool; the race detector is trusted.",
-            "§8 C11"),
+            "§7 C11 (and §2, §3)"),
     "C07": ("Cancel.tla models evaluation under a context (poll at every loop iteration, context-aware sleep/deref, try body "
             "under an 80 % child budget, handler/finally under the parent) and TLC explores cancellation / expiry at every "
             "step of 86 program shapes, checking a bound on post-cancel loop iterations and ended ~> done; the real context "
@@ -201,7 +201,7 @@ CLAIMED = {
             "real code (hook-driven, no wall clock in the verdict except a 5 s not-returned watchdog); 32 / 86 wall-clock "
             "deadline scenarios with >= 2.5 s slack, three attempts.",
             "Builtins are assumed short on small data (as the property states); the deadline part is coarse wall clock.",
-            "§8 C07"),
+            "§7 C07 (and §2, §3)"),
 }
 
 NOT_YET = "check not built yet in this round (planned in DESIGN.md §8; the specification module exists or is in progress)"
